@@ -32,8 +32,8 @@ type vfQ struct {
 
 	tap    []byte // every byte ever written (accepted)
 	writes int
-	frames int // complete frames in tap
-	parsed int // tap offset up to which frames were counted
+	frames int  // complete frames in tap
+	parsed int  // tap offset up to which frames were counted
 	badTap bool // the tap stopped being a sequence of frames
 	abort  bool // wakes WaitFrames
 
